@@ -109,9 +109,12 @@ C20_CMD_ASSUMPTIONS = [
 C20_CMD_RUNS = [{
     "harness": "c20_cmd", "sources": ["engines/cmdmc/c20_cmd.cpp"], "deps": _FIX,
     "variant": "san", "libset": "full",
+    # libstdc++ itself is not instrumented: an out-of-range vector/string index inside std:: code is invisible to
+    # ASan, so the ebusd objects of this run are compiled with the libstdc++ assertions (abort on a bad index)
+    "obj_flags": ["-D_GLIBCXX_ASSERTIONS"], "flags": ["-D_GLIBCXX_ASSERTIONS"],
     "quick": {"parts": 16, "deadline": 150,
               "bounds": "tcp <=3 tokens of 44 (direct mode <=2); http <=3 of 26 URI tokens; csv 30 tokens x 2-3 holes x 11 frames"},
-    "thorough": {"parts": 16, "deadline": 1500,
+    "thorough": {"parts": 16, "deadline": 2700,
                  "bounds": "tcp <=3 tokens of 44 + 4-token lines of 10 commands (direct mode <=3); http <=4 of 26 URI tokens; csv 30 tokens x 3 holes x 11 frames"},
 }]
 
